@@ -172,7 +172,7 @@ func VH_C17_no_shared_writes() {
 	vReach("done", true)
 	vAssert("C17.no-operation-writes-the-sp-object-except-the-cached-signing-context", vWatchedWritesExcept("signingContext") == 0)
 	vAssert("C17.no-operation-writes-package-level-state", vGlobalWrites() == 0)
-	vAssert("C17.exported-configuration-unchanged", vConfigSig(sp) == before)
+	vAssert("C17,C15.exported-configuration-unchanged", vConfigSig(sp) == before)
 }
 
 // VH_C18_two_documents: a built message keeps its own identity when another message is built before the first
